@@ -4,6 +4,9 @@ import FP.Proofs.KLAEExtra
 import FP.Proofs.RouteUser
 import FP.Proofs.ErrExample
 import FP.Proofs.ErrExampleOpt
+import FP.Proofs.KLAEC
+import FP.Proofs.KLAECComplete
+import FP.Proofs.KLAECExample
 /-!
 # C07 — k-Least-Absolute-Errors returns a true optimum with a consistent objective  (DAG model)
 
@@ -16,6 +19,15 @@ errors ≤ `w_max`).
 Scope of the completeness / optimality theorems: no subpath constraints, unit lengths
 (`constraints = []`, `lengths = none`); with `weight_type = int` the flow values are integers
 (otherwise the integer error columns cannot take the value `|f − Σ|`).
+
+**Cyclic class** (last section): `klaecLP inp` is the LP of `kLeastAbsErrorsCycles.__init__` (K2 LP-dump
+equality). Vocabulary (`FP/Spec/ErrWalks.lean`): `LAEC.absErr = |f(e) − Σ_i w_i·traversals_i(e)|`,
+`LAEC.totalErr`; `klaecCap` — the repetition caps; `LaecWithinCaps` — the families of `k` weighted walks
+the LP can represent (caps, `w_i·traversals_i(e) ≤ w_max`, errors `≤ w_max`). Soundness holds for every
+input (`klaec_sound`); completeness and optimality only *within* these bounds
+(`klaec_complete_within_caps`, `klaec_opt_within_caps`, `klaec_opt_tight`) — the bound `w_max = k·max f`
+on the products cuts off better solutions (`klaec_wmax_cuts_optimum`, finding
+C07-laecycles-wmax-cuts-optimum), so the DAG theorem `klae_optimal` has no cyclic counterpart.
 -/
 namespace FP.Props.C07
 open FP FP.Spec FP.Spec.LAE
@@ -196,5 +208,185 @@ example : ∃ a, Sat a (klaeLP ErrExample.inp) := by
 example : Bounded ErrExample.inp ErrExample.P ErrExample.w := ErrExample.bounded
 example : ∀ e ∈ ErrExample.inp.basicEdges,
     0 ≤ ErrExample.inp.fi.f e ∧ ErrExample.inp.fi.f e ≤ ErrExample.inp.fmax := ErrExample.flows_ok
+
+/-! ## the cyclic class `kLeastAbsErrorsCycles` -/
+
+/-- the repetition cap of an edge of the augmented graph: inside an SCC the largest flow value (`0`
+where the attribute is missing) among the edge, the edges leaving a vertex reachable from its head and
+the edges entering a vertex reaching its tail; `1` outside the SCCs -/
+theorem klaec_cap (inp : WalkInput) (e : Edge) (he : e ∈ inp.st.g.edges) :
+    klaecCap inp e = if isSccEdge inp.st.g e
+      then lookupD (edgeMaxReachable inp.st.g fun e => (inp.fOpt e).getD 0) e 0 else 1 :=
+  FP.klaecCap_eq inp e he
+
+/-- **(a) soundness, cyclic class.** For every satisfying assignment of the `kLeastAbsErrorsCycles` LP
+on a well-formed user digraph (cycles allowed): the weights lie in `[0, w_max]` and are integral for
+`weight_type = int`; every layer decodes to a route of the *user's* graph (empty only if empty walks are
+allowed); the traversal counts of the decoded walk (synthetic endpoints put back) are the layer's edge
+variables, natural numbers within the repetition caps; `pi(e,i) = w_i · traversals_i(e) ≤ w_max` and
+`|f(e) − Σ_i w_i · traversals_i(e)| ≤ ee(e) ≤ w_max` on every non-ignored edge (`ee` integral for
+`weight_type = int`); the solver's objective is `Σ_e scale(e)·ee(e)`. -/
+theorem klaec_sound (inp : WalkInput) (a : Asg) (h : BaseWF inp.base) (hsat : Sat a (klaecLP inp)) :
+    (∀ i, i < inp.k → 0 ≤ a (weightsVar i) ∧ a (weightsVar i) ≤ inp.wmax true ∧
+        (inp.weightInt = true → IsInt (a (weightsVar i)))) ∧
+    (∀ i, i < inp.k →
+        (decodeWalkLayer inp.st a i = [] → inp.cfg.allowEmpty = true) ∧
+        (decodeWalkLayer inp.st a i ≠ [] →
+          ValidRoute inp.base inp.starts inp.ends (decodeWalkLayer inp.st a i))) ∧
+    (∀ i, i < inp.k → ∀ e ∈ inp.st.g.edges,
+        traversals (inp.st.source :: decodeWalkLayer inp.st a i ++ [inp.st.sink]) e = multOf a i e ∧
+        a (edgeVar e i) = (multOf a i e : Rat) ∧ (multOf a i e : Rat) ≤ klaecCap inp e) ∧
+    (∀ e ∈ inp.activeEdges true, ∀ i, i < inp.k →
+        a (piVar e i) = a (weightsVar i) * (multOf a i e : Rat) ∧ a (piVar e i) ≤ inp.wmax true) ∧
+    (∀ e ∈ inp.activeEdges true,
+        LAEC.absErr inp (decodeWalkLayer inp.st a) (fun i => a (weightsVar i)) e ≤ a (eeVar e) ∧
+        a (eeVar e) ≤ inp.wmax true ∧ (inp.weightInt = true → IsInt (a (eeVar e)))) ∧
+    evalTerms a (klaecLP inp).obj
+      = ((inp.activeEdges true).map fun e => inp.scale e * a (eeVar e)).sum :=
+  FP.klaec_sound_proof inp a h hsat
+
+/-- the solver's objective at an assignment is `Σ_e scale(e)·ee(e)` over the non-ignored edges -/
+theorem klaec_objective (inp : WalkInput) (a : Asg) :
+    evalTerms a (klaecLP inp).obj = ((inp.activeEdges true).map fun e => inp.scale e * a (eeVar e)).sum :=
+  FP.klaecLP_obj inp a
+
+/-- in a satisfying assignment every multiplicity on a non-ignored edge fits into the
+`klaecBits inp = ⌈log2(w_max + 1)⌉` bit columns of its product block -/
+theorem klaec_mult_bits (inp : WalkInput) (a : Asg) (hsat : Sat a (klaecLP inp))
+    (e : Edge) (he : e ∈ inp.activeEdges true) (i : Nat) (hi : i < inp.k) :
+    multOf a i e < 2 ^ klaecBits inp :=
+  FP.klaec_mult_bits inp a hsat e he i hi
+
+/-- a traversal count of at most `w_max` fits into the bits (convenience for `LaecWithinCaps.multBits`) -/
+theorem klaec_bits_of_le (inp : WalkInput) (n : Nat) (h : (n : Rat) ≤ inp.wmax true) :
+    n < 2 ^ klaecBits inp :=
+  FP.klaec_lt_bits_of_le _ n h
+
+/-- **(b) restricted completeness, cyclic class.** `k ≥ 1` weighted source-to-sink walks of the augmented
+graph that are *within the caps* (`LaecWithinCaps`: repetition caps, weights in `[0, w_max]` of the
+requested type, traversal counts fitting the bits, **every product `w_i · traversals_i(e) ≤ w_max` and
+every error `|f(e) − Σ…| ≤ w_max`** on the non-ignored edges, subset constraints covered) extend to the
+satisfying assignment `klaecWalkAsg` of the whole LP (all auxiliary columns included) with these
+traversal counts and weights, tight error columns and objective `Σ scale(e)·|f(e) − Σ…|`.
+`KlaecNameInj`: the product blocks have pairwise different names (the model identifies a column with
+its name); `hfint`: integral flow values for `weight_type = int` (integer error columns). -/
+theorem klaec_complete_within_caps (inp : WalkInput) (walk : Nat → List Node) (w : Nat → Rat)
+    (hb : BaseWF inp.base) (hk : 0 < inp.k) (hinj : KlaecNameInj inp)
+    (hfint : inp.weightInt = true → ∀ e ∈ inp.activeEdges true, IsInt (inp.f e))
+    (h : LaecWithinCaps inp walk w) :
+    Sat (klaecWalkAsg inp walk w) (klaecLP inp) ∧
+      (∀ i e, multOf (klaecWalkAsg inp walk w) i e
+        = traversals (inp.st.source :: walk i ++ [inp.st.sink]) e) ∧
+      (∀ i, klaecWalkAsg inp walk w (weightsVar i) = w i) ∧
+      (∀ e, klaecWalkAsg inp walk w (eeVar e) = LAEC.absErr inp walk w e) ∧
+      evalTerms (klaecWalkAsg inp walk w) (klaecLP inp).obj = LAEC.totalErr inp walk w :=
+  FP.klaec_complete_within_caps_proof inp walk w hb hk hinj hfint h
+
+/-- … and conversely (no empty walks, no subset constraints) the decoded family of every satisfying
+assignment is within the caps: `LaecWithinCaps` describes exactly what the LP can represent -/
+theorem klaec_decoded_within_caps (inp : WalkInput) (a : Asg) (hb : BaseWF inp.base)
+    (hae : inp.cfg.allowEmpty = false) (hcons : inp.cfg.constraints = [])
+    (hsat : Sat a (klaecLP inp)) :
+    LaecWithinCaps inp (decodeWalkLayer inp.st a) (fun i => a (weightsVar i)) :=
+  FP.klaec_decoded_within_caps inp a hb hae hcons hsat
+
+/-- **(c) optimum transfer, cyclic class.** For an optimum `a` of the LP (non-negative scales): the total
+scaled absolute error of the decoded walks is at most the solver's objective, which is at most the total
+scaled absolute error of *every* family of `k` weighted walks within the caps — the returned solution is
+optimal among all bounded families. -/
+theorem klaec_opt_within_caps (inp : WalkInput) (a : Asg) (hb : BaseWF inp.base) (hk : 0 < inp.k)
+    (hinj : KlaecNameInj inp)
+    (hfint : inp.weightInt = true → ∀ e ∈ inp.activeEdges true, IsInt (inp.f e))
+    (hscale : ∀ e ∈ inp.activeEdges true, 0 ≤ inp.scale e)
+    (hsat : Sat a (klaecLP inp))
+    (hopt : ∀ a', Sat a' (klaecLP inp) → evalTerms a (klaecLP inp).obj ≤ evalTerms a' (klaecLP inp).obj) :
+    LAEC.totalErr inp (decodeWalkLayer inp.st a) (fun i => a (weightsVar i))
+        ≤ evalTerms a (klaecLP inp).obj ∧
+    ∀ walk' w', LaecWithinCaps inp walk' w' →
+      evalTerms a (klaecLP inp).obj ≤ LAEC.totalErr inp walk' w' ∧
+      LAEC.totalErr inp (decodeWalkLayer inp.st a) (fun i => a (weightsVar i))
+        ≤ LAEC.totalErr inp walk' w' :=
+  FP.klaec_opt_within_caps_proof inp a hb hk hinj hfint hscale hsat hopt
+
+/-- **(c) tight form** (no empty walks, no subset constraints): the decoded family of an optimum is itself
+within the caps, the solver's objective *is* its total scaled absolute error, and the error columns are
+tight (`ee(e) = |f(e) − Σ…|`) on every edge of positive scale. -/
+theorem klaec_opt_tight (inp : WalkInput) (a : Asg) (hb : BaseWF inp.base) (hk : 0 < inp.k)
+    (hinj : KlaecNameInj inp)
+    (hae : inp.cfg.allowEmpty = false) (hcons : inp.cfg.constraints = [])
+    (hfint : inp.weightInt = true → ∀ e ∈ inp.activeEdges true, IsInt (inp.f e))
+    (hscale : ∀ e ∈ inp.activeEdges true, 0 ≤ inp.scale e)
+    (hsat : Sat a (klaecLP inp))
+    (hopt : ∀ a', Sat a' (klaecLP inp) → evalTerms a (klaecLP inp).obj ≤ evalTerms a' (klaecLP inp).obj) :
+    LaecWithinCaps inp (decodeWalkLayer inp.st a) (fun i => a (weightsVar i)) ∧
+    evalTerms a (klaecLP inp).obj
+      = LAEC.totalErr inp (decodeWalkLayer inp.st a) (fun i => a (weightsVar i)) ∧
+    (∀ e ∈ inp.activeEdges true, 0 < inp.scale e →
+      a (eeVar e) = LAEC.absErr inp (decodeWalkLayer inp.st a) (fun i => a (weightsVar i)) e) :=
+  FP.klaec_opt_tight_proof inp a hb hk hinj hae hcons hfint hscale hsat hopt
+
+/-- **what the bound cuts off — the code falsifies optimality on cyclic inputs** (finding
+C07-laecycles-wmax-cuts-optimum; instance `s → a ⇄ b`, additional end `b`, `f = (4, 0, 4)`,
+`error_scaling = {(a,b): 1/4}`, `k = 1`, `weight_type = int`, hence `w_max = 4`):
+
+* the LP the constructor builds has optimum `5`: the assignment of the walk `s a b a b` with weight `2`
+  is satisfying with objective `5`, and *every* satisfying assignment has objective at least `5`;
+* yet the same walk — a route of the user's graph within the repetition caps — with the integer weight
+  `4 ≤ w_max` has total scaled absolute error `2`;
+* that family is not within the caps (`pi(a,b) = 4·2 = 8 > w_max`): it is exactly what the bound on the
+  products excludes.
+
+Replayed on the real code by `harness/props/c07.py` (returns error 5, brute force 2). -/
+theorem klaec_wmax_cuts_optimum :
+    (Sat (klaecWalkAsg CycleWitness.inp CycleWitness.walk (fun _ => 2)) (klaecLP CycleWitness.inp) ∧
+      evalTerms (klaecWalkAsg CycleWitness.inp CycleWitness.walk (fun _ => 2))
+        (klaecLP CycleWitness.inp).obj = 5) ∧
+    (∀ a, Sat a (klaecLP CycleWitness.inp) → 5 ≤ evalTerms a (klaecLP CycleWitness.inp).obj) ∧
+    (ValidRoute CycleWitness.inp.base CycleWitness.inp.starts CycleWitness.inp.ends (CycleWitness.walk 0) ∧
+      (∀ e ∈ CycleWitness.inp.st.g.edges,
+        (traversals (CycleWitness.inp.st.source :: CycleWitness.walk 0 ++ [CycleWitness.inp.st.sink]) e : Rat)
+          ≤ klaecCap CycleWitness.inp e) ∧
+      (4 : Rat) ≤ CycleWitness.inp.wmax true ∧
+      LAEC.totalErr CycleWitness.inp CycleWitness.walk (fun _ => 4) = 2) ∧
+    ¬ LaecWithinCaps CycleWitness.inp CycleWitness.walk (fun _ => 4) :=
+  ⟨⟨CycleWitness.laec_sat, CycleWitness.laec_obj⟩, CycleWitness.laec_lp_lower_bound,
+    ⟨CycleWitness.walk_valid, CycleWitness.laec_better_family.2.2, CycleWitness.laec_better_family.2.1,
+      CycleWitness.laec_better_family.1⟩,
+    CycleWitness.laec_cut_off⟩
+
+/-! ### non-vacuity (cyclic class) -/
+
+/-- (a) applies to a concrete satisfying assignment of a cyclic instance (42 columns, 71 rows, checked
+column by column and row by row) … -/
+example := klaec_sound CycleWitness.inp _ CycleWitness.base_wf CycleWitness.laec_sat_checked
+
+/-- … which decodes to the walk `s a b a b` (once round the cycle `a ⇄ b`) and has objective `5` -/
+example : decodeWalkLayer CycleWitness.inp.st
+    (klaecWalkAsg CycleWitness.inp CycleWitness.walk (fun _ => 2)) 0 = ["s", "a", "b", "a", "b"] :=
+  CycleWitness.laec_decode
+
+example : evalTerms (klaecWalkAsg CycleWitness.inp CycleWitness.walk (fun _ => 2))
+    (klaecLP CycleWitness.inp).obj = 5 := by
+  rw [(klaec_complete_within_caps CycleWitness.inp CycleWitness.walk _ CycleWitness.base_wf (by decide)
+    CycleWitness.laec_names CycleWitness.flows_int CycleWitness.laec_within).2.2.2.2]
+  exact CycleWitness.laec_totalErr
+
+/-- the hypotheses of (b) hold for that family -/
+example := klaec_complete_within_caps CycleWitness.inp CycleWitness.walk _ CycleWitness.base_wf
+  (by decide) CycleWitness.laec_names CycleWitness.flows_int CycleWitness.laec_within
+
+/-- (c) applies to a true optimum of the instance (`CycleWitness.laec_optimal`: objective `5`, minimal) -/
+example := klaec_opt_within_caps CycleWitness.inp _ CycleWitness.base_wf (by decide)
+  CycleWitness.laec_names CycleWitness.flows_int CycleWitness.scale_nonneg CycleWitness.laec_sat
+  CycleWitness.laec_optimal
+
+example := klaec_opt_tight CycleWitness.inp _ CycleWitness.base_wf (by decide)
+  CycleWitness.laec_names rfl rfl CycleWitness.flows_int CycleWitness.scale_nonneg CycleWitness.laec_sat
+  CycleWitness.laec_optimal
+
+/-- the decoded family of the concrete satisfying assignment is within the caps -/
+example := klaec_decoded_within_caps CycleWitness.inp _ CycleWitness.base_wf rfl rfl
+  CycleWitness.laec_sat_checked
+
 
 end FP.Props.C07
